@@ -168,8 +168,12 @@ def scenario_traces(ctx, plan):
     from . import tm_scenarios
     out = []
     cfg = tm.Cfg('scen-n4', [1, 1, 1, 1], [4], max_round=3, max_height=1, nbyz=1, budget=-1, own_first=False, useful_only=False)
+    base = cfg
     for name in plan.scenarios:
         steps = tm_scenarios.ALL[name]()
+        ov = tm_scenarios.CFG.get(name)
+        cfg = base if not ov else tm.Cfg('scen-n4-' + name[:12], [1, 1, 1, 1], [4], max_round=ov.get('max_round', 3), max_height=1,
+                                         nbyz=1, budget=-1, own_first=False, useful_only=False)
         d = tempfile.mkdtemp(prefix='vscen-')
         try:
             tr = {'id': 'free-' + name, 'cfg': {'Power': cfg.power, 'Byz': cfg.byz, 'MaxRound': cfg.max_round, 'MaxHeight': cfg.max_height},
@@ -196,6 +200,8 @@ def scenario_traces(ctx, plan):
                                            % (name, n, json.dumps(script[n] if n < len(script) else None)[:300]),
                                  'engine': 'csim', 'replay': None, 'action': name, 'step': n})
             continue
+        for ps in tm_scenarios.APPEND.get(name, []):
+            t['steps'].append({'a': ps[0], 'args': ps[1:], 'post': t['steps'][-1]['post']})
         out.append(t)
     return out
 
